@@ -56,6 +56,9 @@ ASSUMPTIONS = [
     "intermediate sub-size under one function run to the last sub-size under the other (outcome 'hist-crossK/4' = number "
     "of pairs for which the reference stopping levels show such a pixel); each result must equal bitwise the value a "
     "fresh sampler returned (which is itself checked against the reference), so tie bands do not matter here",
+    "the two step-valued programs (indic, quant) are skipped for a (geometry, map) when a sub-pixel centre lies within "
+    "1e-7 of one of their jumps (never for seed 0, where the smallest margin over all geometries/sub-sizes is 2e-5; "
+    "outcome ':jump-tie-skip')",
     "program count: %d distinct functions = 27 affine a*y+b*x+c (a,b,c in {-1,0,2}; includes 3 constants) + %d "
     "non-linear (y*x, |x|, 2 Gaussians, 2 half-plane-zero ReLUs, 2 negative-valued, sin*cos, peaked 1/(0.1+r^2), r); "
     "each is also called through 3 method styles (bare self-named, bare obj-named, stacked on to_array)"
@@ -132,13 +135,25 @@ def feval(name, y, x, p):
         return 1.0 / (0.1 + y * y + x * x)
     if name == "rad":
         return np.sqrt(y * y + x * x)
-    # integer / boolean valued programs (the binned value is still the arithmetic mean). Their jumps sit on curves no sub-pixel
-    # centre of the enumerated geometries comes within 1e-6 of (irrational offsets), so 1e-16 position noise cannot flip them.
+    # integer / boolean valued programs (the binned value is still the arithmetic mean). Their jumps sit on curves that the
+    # sub-pixel centres of the seed-0 geometries stay > 2e-5 away from; seed-jittered geometries (3-decimal parameters) can
+    # put a centre exactly on a jump, so run_F skips such a program for a map when jump_margin() < 1e-7 (tie band).
     if name == "indic":
         return (np.sqrt((y - 0.0123) ** 2 + (x + 0.0271) ** 2) < 1.03719).astype(int)
     if name == "quant":
         return np.floor(1.7 * y - 0.9 * x + 0.31337).astype(int)
     raise KeyError(name)
+
+
+JUMPY = ("indic", "quant")
+
+
+def jump_margin(name, y, x):
+    """Smallest distance (in units of the argument of the step) of the points to a discontinuity of a JUMPY program."""
+    if name == "indic":
+        return float(np.abs(np.sqrt((y - 0.0123) ** 2 + (x + 0.0271) ** 2) - 1.03719).min())
+    t = 1.7 * y - 0.9 * x + 0.31337
+    return float(np.abs(t - np.round(t)).min())
 
 
 def is_affine(name):
@@ -505,6 +520,12 @@ def run_F(aa, v, m, g, gi, seed, t):
         one = all(s == 1 for s in smap)
         all_entries = (not light) and tag in ("cyc", "u1", "ones")
         for name in PROGRAMS:
+            if name in JUMPY and jump_margin(name, pts[:, 0], pts[:, 1]) < 1e-7:
+                # a sub-pixel centre sits on a jump of this step function up to rounding: floating-point coin flip, excluded
+                if not state.get("jump_tie"):
+                    state["jump_tie"] = True
+                    v.outcome += ":jump-tie-skip"
+                continue
             fsub = feval(name, pts[:, 0], pts[:, 1], par)
             want = ref.bin_mean(fsub, owner, n)
             sc = max(1.0, float(np.abs(fsub).max()))
